@@ -22,7 +22,7 @@ import (
 func init() {
 	fw.Register(&fw.Prop{
 		ID: "C17", Level: "exploration",
-		Rule: "one case = one generated session of a statically scoped program: 1-4 files minified together and loaded in order, 1-4 packages (in-package/export/use-package/qualified names), every binding form (let let* flet labels lambda defun defmacro macrolet dotimes), shadowing of locals/parameters/globals/builtins, closures and set!, labels mutual recursion, defmacro quasiquote templates naming globals, quoted data and identifiers spelled like renamed names or like minifier output (x1 x2 ...), excluded names, keyword arguments only when parameters are never renamed; each session is judged under the command defaults plus up to three of {rename-exports, rename-params, exclusions}; the files are named plainly (f1.lisp ...) in a third of the sessions and otherwise placed in directories (one level, nested, shared), with equal base names in different directories, absolute / relative / mixed spellings, ./ and ../ prefixes, spaces, dots, non-ASCII letters and | : \\ # in names, missing or doubled extensions; a third of the multi-file cases hand the files to Minify in another order than the load order (reversed, sorted by path, rotated); a later file may start with a copy under another package name, laid out alike, of the segment that opens an earlier file (equal definitions at equal line:column in two files); about a quarter of the sessions contain one or two groups 'template names resolved at the expansion site': a defmacro of the using package or of a library package (exported and imported, or called as lib:macro; written in the file of the call or in an earlier one) whose template names a helper function and a global variable that only the USING package defines (in the same or another file), in call-head, argument, let/let* initialiser inside bracket or parenthesised binding lists, flet/labels binding bodies, lambda bodies, function-value arguments of funcall/apply/map, bracketed cond clauses, thread-first steps, dotimes bodies and the binder-macro shape (m name expr body...). A (session, configuration) pair is DISTINCT by (configuration, files, packages, outcome class of the original run, set of construct tags actually emitted) and counts only when the minifier reported at least one rename (otherwise trivial).",
+		Rule: "one case = one generated session of a statically scoped program: 1-4 files minified together and loaded in order, 1-4 packages (in-package/export/use-package/qualified names), every binding form (let let* flet labels lambda defun defmacro macrolet dotimes), shadowing of locals/parameters/globals/builtins, closures and set!, labels mutual recursion, defmacro quasiquote templates naming globals, quoted data and identifiers spelled like renamed names or like minifier output (x1 x2 ...), excluded names, keyword arguments only when parameters are never renamed; each session is judged under the command defaults plus up to three of {rename-exports, rename-params, exclusions}; the files are named plainly (f1.lisp ...) in a third of the sessions and otherwise placed in directories (one level, nested, shared), with equal base names in different directories, absolute / relative / mixed spellings, ./ and ../ prefixes, spaces, dots, non-ASCII letters and | : \\ # in names, missing or doubled extensions; a third of the multi-file cases hand the files to Minify in another order than the load order (reversed, sorted by path, rotated); a later file may start with a copy under another package name, laid out alike, of the segment that opens an earlier file (equal definitions at equal line:column in two files); about a quarter of the sessions contain one or two groups 'template names resolved at the expansion site': a defmacro of the using package or of a library package (exported and imported, or called as lib:macro; written in the file of the call or in an earlier one) whose template names a helper function and a global variable that only the USING package defines (in the same or another file), in call-head, argument, let/let* initialiser inside bracket or parenthesised binding lists, flet/labels binding bodies, lambda bodies, function-value arguments of funcall/apply/map, bracketed cond clauses, thread-first steps, dotimes bodies and the binder-macro shape (m name expr body...); about a fifth of the sessions (two fifths of the multi-file ones) contain one or two groups 'a name defined more than once, referenced from elsewhere': an earlier file defines one package-level name two or three times in one package (defun, (set 'n ()) as a declaration, set of an integer, set of a lambda, defmacro; every sequence with at least one defun), every form computing something else, nothing but definitions between them, and the name is referenced from the file being written and from all later code (call, funcall/apply of #'n, variable read, macro call; same package, pkg:n, export + use-package; at top level and in function bodies), sometimes from a function of a still earlier file that is only called afterwards, and - when the last form is a defun or defmacro - also in the defining file after the last definition; never where defect D8 applies (code running between the definitions; any other mention in the defining file when a set follows a defun). A (session, configuration) pair is DISTINCT by (configuration, files, packages, outcome class of the original run, set of construct tags actually emitted) and counts only when the minifier reported at least one rename (otherwise trivial).",
 		Assumptions: []string{
 			"the real evaluator (a FRESH runtime per run, files loaded in order with LoadString, core language without the stdlib packages) is the reference for 'meaning'; the check compares the original and the minified run and does not model scoping itself",
 			"transcripts compare the value (function values only as 'is a function'), the Runtime.Stderr bytes (skipped when the original printed a function value) and the error condition name; error messages and stack traces are not compared because they legitimately spell renamed symbols",
